@@ -95,7 +95,7 @@ def _cases(draw, tier):
                 'idirs': draw(st.sampled_from([['inc_a', 'inc_b'], ['inc_b', 'inc_a', 'inc_b'], ['inc_a', '{ROOT}/inc_a', 'inc_b'],
                                                ['inc_b', '{ROOT}', 'inc_a']]))}
     cfg = draw(G.layout_isa(zones=False))
-    why = draw(st.sampled_from(['twice-direct', 'twice-nested', 'diamond', 'missing', 'ambiguous', 'self', 'ambiguous-link-to-the-other',
+    why = draw(st.sampled_from(['twice-direct', 'twice-nested', 'diamond', 'missing', 'ambiguous', 'self', 'ambiguous-link-to-the-other', 'missing-but-in-the-working-directory',
                                  'ambiguous-copy-next-to-includer', 'ambiguous-copy-next-to-nested-includer',
                                  'includer-file-label-used-in-included', 'included-file-label-used-in-includer',
                                  'includer-file-label-used-in-nested', 'inert-twice', 'inert-missing']))
@@ -293,6 +293,14 @@ def execute(case, ctx):
             del files['inc_a/common.asm']
         if why == 'ambiguous':
             files['inc_b/common.asm'] = '.byte 9\n'
+        main = 'main.asm'
+        if why == 'missing-but-in-the-working-directory':
+            # the main file lives in proj/, the tool is started one level above, where a file of the included name lies:
+            # the working directory is not a search directory
+            del files['inc_a/common.asm']
+            _into_subdir(files)
+            files['common.asm'] = '.byte 9\n'
+            main = 'proj/main.asm'
         if why == 'ambiguous-link-to-the-other':
             files['inc_b/common.asm'] = ('symlink', 'inc_a/common.asm')   # the name is found in two search directories
         if why == 'ambiguous-copy-next-to-includer':
@@ -302,7 +310,7 @@ def execute(case, ctx):
         if case.get('links') and why in ('twice-direct', 'twice-nested', 'diamond'):
             _link_some(files, 7)
             why += '/through-symbolic-links'
-        argv = _argv(fname, case['idirs'], isa.origin if why.startswith('inert-') else None)
+        argv = _argv(fname, case['idirs'], isa.origin if why.startswith('inert-') else None, main=main)
         res = runner.run_forked(argv, files)
         detail = {'sources': {k: v for k, v in files.items() if k.endswith('.asm')}, 'argv': argv, 'why': why, 'run': res.brief()}
         findings = []
